@@ -83,6 +83,8 @@ pub struct Inner {
     /// set once the run has been declared stuck: every worker reaching a hook unwinds (panics) so that its thread ends
     pub release: bool,
     pub monitor_addr: Option<usize>,
+    /// AfterNotifyAll events that were not backed by a real notification (waiters still queued)
+    pub skipped_notifications: usize,
 }
 pub struct Sched {
     pub m: Mutex<Inner>,
@@ -131,6 +133,7 @@ impl Sched {
                 stuck_tx: None,
                 release: false,
                 monitor_addr: None,
+                skipped_notifications: 0,
             }),
             cv: Condvar::new(),
             fringe_len: Arc::new(AtomicUsize::new(0)),
@@ -344,6 +347,17 @@ impl Sched {
             }
             Event::AfterNotifyAll => {
                 let mut g = self.m.lock().unwrap();
+                // Does the event tell the truth? A change of the code under test may make the notification
+                // conditional while the (separate, add-only) hook line still fires. parking_lot's Condvar
+                // keeps a non-null pointer (to the mutex) exactly while threads are queued on it, and a
+                // real notify_all leaves it null. The emitting worker holds the mutex, so nobody can have
+                // started to wait in between: if waiters are still queued, no notification happened.
+                if let Some(a) = g.monitor_addr {
+                    if condvar_has_waiters(a) {
+                        g.skipped_notifications += 1;
+                        return;
+                    }
+                }
                 let mut woke = 0;
                 for s in g.status.iter_mut() {
                     if *s == WStat::Parked {
@@ -373,6 +387,56 @@ impl Sched {
             }
         }
     }
+}
+
+/// non destructive probe: are threads queued on this parking_lot::Condvar ?
+/// (parking_lot 0.12: `struct Condvar { state: AtomicPtr<RawMutex> }`, null iff nobody waits; the
+/// layout assumption is verified by `condvar_probe_selftest`)
+pub fn condvar_has_waiters(addr: usize) -> bool {
+    // SAFETY: addr is the address of a live parking_lot::Condvar published by a worker of a solver that is still alive
+    let p = unsafe { &*(addr as *const std::sync::atomic::AtomicPtr<()>) };
+    !p.load(AO::SeqCst).is_null()
+}
+pub fn condvar_probe_selftest() -> Result<(), String> {
+    if std::mem::size_of::<parking_lot::Condvar>() != std::mem::size_of::<std::sync::atomic::AtomicPtr<()>>() {
+        return Err("parking_lot::Condvar does not have the expected layout".into());
+    }
+    let pair = Arc::new((parking_lot::Mutex::new(false), parking_lot::Condvar::new()));
+    let addr = &pair.1 as *const parking_lot::Condvar as usize;
+    if condvar_has_waiters(addr) {
+        return Err("condvar probe: waiters reported on a fresh condvar".into());
+    }
+    let p2 = pair.clone();
+    let h = std::thread::spawn(move || {
+        let mut g = p2.0.lock();
+        while !*g {
+            p2.1.wait(&mut g);
+        }
+    });
+    // wait (bounded) until the thread is queued
+    let mut seen = false;
+    for _ in 0..20_000 {
+        if condvar_has_waiters(addr) {
+            seen = true;
+            break;
+        }
+        std::thread::sleep(Duration::from_micros(100));
+    }
+    {
+        let mut g = pair.0.lock();
+        *g = true;
+        pair.1.notify_all();
+        let after = condvar_has_waiters(addr);
+        drop(g);
+        let _ = h.join();
+        if !seen {
+            return Err("condvar probe: a waiting thread was never reported".into());
+        }
+        if after {
+            return Err("condvar probe: waiters still reported right after notify_all".into());
+        }
+    }
+    Ok(())
 }
 
 impl Sched {
@@ -409,6 +473,7 @@ pub struct SchedReport {
     pub workers_with_nodes: usize,
     pub interleaved_inside_node: bool,
     pub abort_with_other_in_flight: bool,
+    pub skipped_notifications: usize,
     pub trace_hash: u64,
     pub trace_len: usize,
     pub trace_tail: Vec<(usize, &'static str, &'static str)>,
@@ -440,8 +505,26 @@ pub enum SchedOutcome {
 }
 
 /// Executes one scheduled parallel run. One scheduled run at a time per process (the callback is global).
+/// set once a scheduled run hit the harness' own wall-clock watchdog: the scheduler no longer models the
+/// code under test (e.g. the notification announced by the AfterNotifyAll hook does not happen any more),
+/// every later scheduled run of this process is skipped and reported as inconclusive
+static SCHED_BROKEN: std::sync::atomic::AtomicBool = std::sync::atomic::AtomicBool::new(false);
+
 pub fn run_scheduled(case: &ParCase, o: &Oracle, primals: Vec<(isize, Vec<ddo::Decision>)>, record: bool) -> SchedOutcome {
+    if SCHED_BROKEN.load(AO::SeqCst) {
+        return SchedOutcome::HarnessTimeout;
+    }
     let _guard = RUN_LOCK.lock().unwrap_or_else(|e| e.into_inner());
+    static SELFTEST: std::sync::Once = std::sync::Once::new();
+    SELFTEST.call_once(|| {
+        if let Err(e) = condvar_probe_selftest() {
+            eprintln!("HARNESS-ERROR: {e}");
+            SCHED_BROKEN.store(true, AO::SeqCst);
+        }
+    });
+    if SCHED_BROKEN.load(AO::SeqCst) {
+        return SchedOutcome::HarnessTimeout;
+    }
     let nworkers = case.with_nb_threads.unwrap_or(case.threads);
     // step bound: every step is a critical section, a park, a poll, a cache access or a dominance check;
     // a terminating search makes at most `budget` polls, each layer touches a bounded number of nodes
@@ -475,7 +558,7 @@ pub fn run_scheduled(case: &ParCase, o: &Oracle, primals: Vec<(isize, Vec<ddo::D
             let _ = tx.send(Msg::Done(Box::new(out)));
         })
         .expect("cannot spawn the run thread");
-    let msg = rx.recv_timeout(Duration::from_secs(120));
+    let msg = rx.recv_timeout(Duration::from_secs(30));
     let outcome = match msg {
         Ok(Msg::Done(out)) => {
             let _ = handle.join();
@@ -502,6 +585,8 @@ pub fn run_scheduled(case: &ParCase, o: &Oracle, primals: Vec<(isize, Vec<ddo::D
             SchedOutcome::Stuck(rep)
         }
         Err(_) => {
+            SCHED_BROKEN.store(true, AO::SeqCst);
+            sched.release_all();
             verif_hooks::set_callback(None);
             SchedOutcome::HarnessTimeout
         }
@@ -524,6 +609,7 @@ fn report(s: &Arc<Sched>) -> SchedReport {
         workers_with_nodes: g.workitems_by_worker.iter().filter(|c| **c > 0).count(),
         interleaved_inside_node: g.interleaved_inside_node,
         abort_with_other_in_flight: g.abort_with_other_in_flight,
+        skipped_notifications: g.skipped_notifications,
         trace_hash: fxhash::hash64(&g.trace),
         trace_len: g.trace.len(),
         trace_tail: tail,
